@@ -28,9 +28,9 @@ def witness_tag_only(chk):
         return
     recv = C.unlatin(r["obs"][-2].get("recv", ""))
     tagged = [l for l in P.imap_lines(recv) if l.startswith(b"zz9 ")]
-    if not tagged and b"* BAD" in recv:
-        chk.violation("a line consisting of a tag alone ('zz9') is answered with an untagged '* BAD Invalid command format' and no tagged completion",
-                      {"suite": "witness", "line": "zz9", "recv": recv.decode("latin-1")}, cls="tag_only_line")
+    if len(tagged) != 1:
+        chk.violation("a line consisting of a tag alone ('zz9') does not get exactly one tagged completion (regression of the repaired tag_only_line defect): %r" % recv[:200],
+                      {"suite": "witness", "line": "zz9", "recv": recv.decode("latin-1")})
 
 
 def witness_litplus(chk):
@@ -49,7 +49,7 @@ def witness_litplus(chk):
     if b'"injected"' in recv:
         chk.violation("APPEND to a missing mailbox with a non-synchronising literal {n+} is refused before the literal is read; the literal's bytes "
                       "('x1 CREATE injected') are then executed as a command (mailbox 'injected' exists afterwards, tagged reply with foreign tag x1)",
-                      {"suite": "witness", "recv_append": recv2.decode("latin-1"), "recv_list": recv.decode("latin-1")}, cls="literalplus_refused_desync")
+                      {"suite": "witness", "recv_append": recv2.decode("latin-1"), "recv_list": recv.decode("latin-1")})
 
 
 def run(chk, searching=False):
